@@ -611,6 +611,29 @@ def evaluate(ctx, uft, cases, root):
     return cases
 
 
+def off_on_shape(recs, o):
+    """(approximate, ignores triggers blocked by other filters) does a call entered while tracing is on return
+    while tracing is off, with tracing switched on again later?"""
+    off_f = {fn for fn, acts in o.T if any(a == "trace_off" for a, _ in acts)}
+    on_f = {fn for fn, acts in o.T if any(a == "trace_on" for a, _ in acts)}
+    en = not o.trace_off
+    stack, ret_off = [], False
+    for typ, dep, fn, t in recs:
+        if typ == "E":
+            if fn in off_f:
+                en = False
+            elif fn in on_f:
+                if ret_off and not en:
+                    return True
+                en = True
+            stack.append(en)
+        elif stack:
+            was_on = stack.pop()
+            if not en and (was_on or True):
+                ret_off = True
+    return False
+
+
 def has_switch(o):
     return o.trace_off or any(a in ("trace_on", "trace_off") for _, acts in o.T for a, _ in acts)
 
@@ -884,6 +907,8 @@ def run(ctx):
     sel = {"shows_everything": 0, "shows_nothing": 0, "shows_a_proper_part": 0, "folded_leaves": 0,
            "record_removed_by_time_filter": 0, "hidden_parent_shown_child": 0}
     variants = {"same": 0, "pre-fix": 0, "repaired": 0}
+    swstat = {"switch_option_sets": 0, "return_while_off_then_on_again": 0, "of_those_with_F_N_D_t_H": 0,
+              "failures_in_switch_class": 0}
     nolib_hits = []
     samples = []
     for lo in range(0, len(cases), 600):
@@ -900,6 +925,12 @@ def run(ctx):
             dist["open_calls_at_end"] += not closed(case["recs"])
             dist["records"] += len(case["recs"])
             mism, bad, finding = assess(case)
+            if has_switch(o):
+                swstat["switch_option_sets"] += 1
+                shp = off_on_shape(case["recs"], o)
+                swstat["return_while_off_then_on_again"] += shp
+                swstat["of_those_with_F_N_D_t_H"] += bool(shp and (o.F or o.N or o.D or o.t or o.H))
+                swstat["failures_in_switch_class"] += bool(mism or bad)
             shown = case["impl"]["script"][1]
             nrec = len(case["recs"])
             sel["shows_everything"] += len(shown) == nrec
@@ -1001,7 +1032,7 @@ def run(ctx):
                 "analysed by replay, script, dump --chrome, report, graph and raw dump (6 runs). Then H1->H3: forests recorded by the "
                 "real libmcount (-pg or -finstrument-functions hook) with and without -F/-N/-D/-t; the unfiltered recording is replayed "
                 "with the option. distinct = distinct (options, records)" % nprobe,
-        "input_distribution": dist, "selection_outcomes": sel, "nolibcall_model_variant_matched": variants,
+        "input_distribution": dist, "trace_on_off_class": swstat, "selection_outcomes": sel, "nolibcall_model_variant_matched": variants,
         "model_code_disagreements": disagreements, "monitor_failures_on_impl": monitor_fail,
         "finding_nolibcall_cases": len(nolib_hits), "record_vs_replay": rvr, "samples": samples, "exhaustive": False,
     })
